@@ -97,6 +97,24 @@ func init() {
 		e["fe"], e["fb"], e["mt"], e["str"] = S(fe), S(fb), S(mt), S(d.String())
 		e["vs"], e["ve"], e["vb"], e["vv"] = S(fmt.Sprintf("%s", d)), S(fmt.Sprintf("%e", d)), S(fmt.Sprintf("%b", d)), S(fmt.Sprintf("%v", d))
 		e["js"], e["xm"] = S(js), S(xm)
+		// the caller owns the returned slices: overwriting them must not change later results
+		for _, b := range [][]byte{fe, fb, mt, js, xm} {
+			for i := range b {
+				b[i] = '#'
+			}
+		}
+		held, _ := d.MarshalText()
+		heldF, _ := date.DefaultFormatter(nil, d, 0)
+		other := d.Add(0, 1, 1)
+		_, _ = other.MarshalText()
+		_, _ = date.DefaultFormatter(nil, other, 0)
+		_ = other.String()
+		e["held"], e["heldf"] = S(held), S(heldF)
+		mt2, _ := d.MarshalText()
+		fe2, _ := date.DefaultFormatter(make([]byte, 0, 4), d, 0) // a non-nil, empty caller buffer
+		e["mt2"], e["fe2"], e["str2"] = S(mt2), S(fe2), S(d.String())
+		fe, _ = date.DefaultFormatter(nil, d, 0)
+		fb, _ = date.DefaultFormatter(nil, d, date.FormatBasic)
 		res := [][]int{}
 		for _, text := range [][]byte{fe, fb} {
 			res = append(res, back(date.DefaultParser(string(text), 0)))
@@ -125,7 +143,7 @@ func init() {
 			if str(e["T"]) == "s" {
 				d, err = date.DefaultParser(string(in), rule)
 			} else {
-				d, err = date.DefaultParser(in, rule)
+				d, err = date.DefaultParser(reused(in), rule)
 			}
 		})
 		e["panic"] = p
@@ -273,6 +291,9 @@ func init() {
 		}
 		if !fToNil {
 			to = &fToVar
+		}
+		if e["same"] == true && !fFromNil && !fToNil && fFromVar == fToVar {
+			to = from // the caller passes one variable as both bounds
 		}
 		f, err := date.FilterFromTo(from, to)
 		e["ok"] = err == nil
